@@ -29,6 +29,7 @@ def run(ctx):
     c05.ordinal_rule(ctx, "C06.N")
     c05.reader_ownership(ctx, "C06.N")
     siblings_rule(ctx)
+    consumers_rule(ctx)
 
 
 def decoder_rule(ctx):
@@ -226,3 +227,30 @@ def reader_deps(ctx, prop):
     accessor_rule(d)
     c05.ordinal_rule(d, "C06.N")
     c05.reader_ownership(d, "C06.N")
+
+
+
+def consumers_rule(ctx):
+    """'row count of any subcommand run on the file' is an observation point: every record the reader delivers is
+    consumed exactly once — batch writers push every record and flush every batch, workers process every taken record."""
+    d = dep(ctx, "C06", "C05")
+    for path, who in (("composition::oligo::OligoComputer::vectorise_batch", "oligo::vectorise_batch"),
+                      ("composition::cgr::CgrComputer::vectorise", "cgr::vectorise"),
+                      ("composition::oligocgr::OligoCgrComputer::vectorise", "oligocgr::vectorise"),
+                      ("coverage::CovComputer::compute_coverages", "compute_coverages")):
+        fv = ctx.view(path)
+        if fv is not None:
+            rule_flush_pairing(d, "C05.F", fv, who)
+    fm = ctx.view(c05.MMAP)
+    if fm is not None:
+        rule_taken_reaches(d, "C05.T", fm, "vectorise_mmap",
+                           lambda n: n.get("k") == "mcall" and cname(n) == "ktio::mmap::MMWriter::write_at", "row write")
+    from . import c07
+    fc = ctx.view(c07.CHUNK)
+    if fc is not None:
+        c07.take_rule(dep(ctx, "C06", "C07"), fc)
+    for path, who in (("misc::minimisers::bin_sequences", "bin_sequences"), ("misc::minimisers::seq_to_min", "seq_to_min")):
+        fv = ctx.view(path)
+        if fv is not None:
+            rule_taken_reaches(dep(ctx, "C06", "C10"), "C10.I", fv, who,
+                               lambda n: n.get("k") == "for" and "MinimiserGenerator<" in n.get("iter_ty", ""), "run loop")
